@@ -21,7 +21,6 @@ KNOWN_CLASSES = {
     # a *named* type that is UTCTime/GeneralizedTime loses the 7-bit PER constraints of the built-in type
     "time.named-type.uper": lambda f, s: s == "uper" and "time.named" in f,
     "size.ext-root-above-64K.uper": lambda f, s: s == "uper" and "size.ext.ub>=64K" in f,
-    "seq.empty-extensible.oer": lambda f, s: s == "oer" and "seq.empty-ext" in f,
     "kmstring.size-extension.alphabet-dropped.uper": lambda f, s: s == "uper" and "kmstr.size-ext-outside" in f,
     "set.no-oer-uper": lambda f, s: s in ("oer", "uper") and "SET" in f,
 }
